@@ -4,6 +4,7 @@ import (
 	"log"
 	"maps"
 	"slices"
+	"sync"
 	"time"
 
 	"github.com/gopcua/opcua/id"
@@ -71,10 +72,41 @@ type Node struct {
 	val  ValueFunc
 
 	ns NameSpace
+
+	// mu protects attr and val: attributes are written by the service
+	// dispatcher and read by the goroutines that sample monitored items.
+	mu sync.RWMutex
+}
+
+// getAttr returns the stored attribute or nil.
+func (n *Node) getAttr(id ua.AttributeID) *ua.DataValue {
+	n.mu.RLock()
+	defer n.mu.RUnlock()
+	if n.attr == nil {
+		return nil
+	}
+	return n.attr[id]
+}
+
+// setAttr stores an attribute.
+func (n *Node) setAttr(id ua.AttributeID, v *ua.DataValue) {
+	n.mu.Lock()
+	defer n.mu.Unlock()
+	if n.attr == nil {
+		n.attr = Attributes{}
+	}
+	n.attr[id] = v
+}
+
+// valueFunc returns the function that provides the value or nil.
+func (n *Node) valueFunc() ValueFunc {
+	n.mu.RLock()
+	defer n.mu.RUnlock()
+	return n.val
 }
 
 func NewNode(id *ua.NodeID, attr Attributes, refs References, val ValueFunc) *Node {
-	n := &Node{id, attr, refs, val, nil}
+	n := &Node{id: id, attr: attr, refs: refs, val: val}
 	n.sanitize()
 	return n
 }
@@ -175,27 +207,26 @@ func (n *Node) ID() *ua.NodeID {
 }
 
 func (n *Node) Value() *ua.DataValue {
-	if n.val == nil {
+	val := n.valueFunc()
+	if val == nil {
 		return nil
 	}
-	return n.val()
+	return val()
 }
 
 func (n *Node) Attribute(id ua.AttributeID) (*AttrValue, error) {
 	switch {
 	case id == ua.AttributeIDValue:
-		if n.val != nil {
-			val := n.val()
+		if f := n.valueFunc(); f != nil {
+			val := f()
 			if val == nil {
 				return nil, ua.StatusBadAttributeIDInvalid
 			}
 			return NewAttrValue(val), nil
 		}
 		return nil, ua.StatusBadAttributeIDInvalid
-	case n.attr == nil:
-		return nil, ua.StatusBadAttributeIDInvalid
 	default:
-		if v := n.attr[id]; v != nil {
+		if v := n.getAttr(id); v != nil {
 			return NewAttrValue(v), nil
 		}
 		return nil, ua.StatusBadAttributeIDInvalid
@@ -209,18 +240,20 @@ func (n *Node) SetAttribute(id ua.AttributeID, val *ua.DataValue) error {
 
 		// TODO: probably need to do some type checking here.
 		// And some permissions tests
+		n.mu.Lock()
 		n.val = func() *ua.DataValue {
 			return val
 		}
+		n.mu.Unlock()
 	default:
-		n.attr[id] = val
+		n.setAttr(id, val)
 	}
 
 	return nil
 }
 
 func (n *Node) BrowseName() *ua.QualifiedName {
-	v := n.attr[ua.AttributeIDBrowseName]
+	v := n.getAttr(ua.AttributeIDBrowseName)
 	// the attribute can be overwritten by a client with a value of any type
 	if v == nil || v.Value == nil {
 		return &ua.QualifiedName{}
@@ -232,11 +265,11 @@ func (n *Node) BrowseName() *ua.QualifiedName {
 }
 
 func (n *Node) SetBrowseName(s string) {
-	n.attr[ua.AttributeIDBrowseName] = DataValueFromValue(&ua.QualifiedName{Name: s})
+	n.setAttr(ua.AttributeIDBrowseName, DataValueFromValue(&ua.QualifiedName{Name: s}))
 }
 
 func (n *Node) DisplayName() *ua.LocalizedText {
-	v := n.attr[ua.AttributeIDDisplayName]
+	v := n.getAttr(ua.AttributeIDDisplayName)
 	if v == nil || v.Value == nil {
 		return &ua.LocalizedText{}
 	}
@@ -251,11 +284,11 @@ func (n *Node) DisplayName() *ua.LocalizedText {
 func (n *Node) SetDisplayName(text, locale string) {
 	lt := &ua.LocalizedText{Text: text, Locale: locale}
 	lt.UpdateMask()
-	n.attr[ua.AttributeIDDisplayName] = DataValueFromValue(lt)
+	n.setAttr(ua.AttributeIDDisplayName, DataValueFromValue(lt))
 }
 
 func (n *Node) Description() *ua.LocalizedText {
-	v := n.attr[ua.AttributeIDDescription]
+	v := n.getAttr(ua.AttributeIDDescription)
 	if v == nil || v.Value == nil {
 		return &ua.LocalizedText{}
 	}
@@ -266,7 +299,7 @@ func (n *Node) Description() *ua.LocalizedText {
 }
 
 func (n *Node) SetDescription(text, locale string) {
-	n.attr[ua.AttributeIDDescription] = DataValueFromValue(&ua.LocalizedText{Text: text, Locale: locale})
+	n.setAttr(ua.AttributeIDDescription, DataValueFromValue(&ua.LocalizedText{Text: text, Locale: locale}))
 }
 
 func (n *Node) DataType() *ua.ExpandedNodeID {
@@ -274,7 +307,7 @@ func (n *Node) DataType() *ua.ExpandedNodeID {
 		log.Printf("n was nil!")
 		return ua.NewTwoByteExpandedNodeID(0)
 	}
-	v := n.attr[ua.AttributeIDDataType]
+	v := n.getAttr(ua.AttributeIDDataType)
 	var dt *ua.ExpandedNodeID
 	if v != nil && v.Value != nil {
 		// the attribute can be overwritten by a client with a value of any type
@@ -297,11 +330,11 @@ func (n *Node) DataType() *ua.ExpandedNodeID {
 }
 
 func (n *Node) SetNodeClass(nc ua.NodeClass) {
-	n.attr[ua.AttributeIDNodeClass] = DataValueFromValue(uint32(nc))
+	n.setAttr(ua.AttributeIDNodeClass, DataValueFromValue(uint32(nc)))
 }
 
 func (n *Node) NodeClass() ua.NodeClass {
-	v := n.attr[ua.AttributeIDNodeClass]
+	v := n.getAttr(ua.AttributeIDNodeClass)
 	if v == nil || v.Value == nil || v.Value.Value() == nil {
 		return ua.NodeClassObject
 	}
@@ -376,7 +409,7 @@ func (n *Node) AddRef(o *Node, rt RefType, forward bool) {
 // I'm not sure what the best way to implement "user" specific access levels
 // is presently.  Will need functioning user authentication first, and then a way to
 // pass it into the nodes user access attribute so it can be checked properly.
-func (n Node) Access(flag ua.AccessLevelType) bool {
+func (n *Node) Access(flag ua.AccessLevelType) bool {
 
 	access, err := n.Attribute(ua.AttributeIDUserAccessLevel)
 	if err == nil { // if we have a user access level, we need to check it.
